@@ -363,7 +363,7 @@ theorem ecuCmItems_form (es : List WEcu) : ∀ it ∈ ecuCmItems es, ∃ name te
 
 /-- **The core round trip of the whole matrix, without a line error.** -/
 theorem roundtrip_coreG (es : List WEcu) (hes : wfEcus es = true) (ds : List DefLine) (hds : wfDefs ds = true)
-    (dds : List DefDefLine) (hdds : ∀ d ∈ dds, wfDefDef d = true)
+    (dds : List DefDefLine) (hdds : wfDefaults ds dds = true)
     (ga : List (Str × Str)) (hga : wfAttrs (expectDefs ds dds) .global .global ga = true)
     (hea : ∀ e ∈ es, wfAttrs (expectDefs ds dds) .ecu (.ecu e.name) e.attrs = true)
     (ps : List (WFrame × (Nat × Bool))) (hwf : ∀ p ∈ ps, p.1.wf p.2 = true) (hdist : ps.Pairwise fun p q => p.2 ≠ q.2)
@@ -440,7 +440,7 @@ theorem roundtrip_coreG (es : List WEcu) (hes : wfEcus es = true) (ds : List Def
     rcases kindsA es ps _ hit with h | h
     · simp [itemFrameUpd] at h
     · simp [isEcuItem] at h
-  have h2 := stateB es hnd ds hds dds ga hga hea m1 h1d.1 h1d.2 h1e
+  have h2 := stateB es hnd ds hds dds (wfDefaults_ok ds dds hdds) ga hga hea m1 h1d.1 h1d.2 h1e
   generalize hm2d : (itemsB es ds dds ga).foldl applyItem m1 = m2 at h2
   have h1keys : m1.frames.map (·.key) = ps.map (·.2) := by
     rw [h1f, List.map_map, ← hAkeys]
@@ -509,7 +509,7 @@ theorem roundtrip_coreG (es : List WEcu) (hes : wfEcus es = true) (ds : List Def
         · simp only [wfCmHead]; exact this.1.1
         · simpa using this.2
   have hokB : okFile m1 (stmtsB es ds dds ga) = true :=
-    okFile_ones _ (stmtsB_ones es ds hds dds hdds _ ga hga hea) m1
+    okFile_ones _ (stmtsB_ones es ds hds dds (wfDefaults_wf ds dds hdds) _ ga hga hea) m1
   have hokF : okFile m2 (stmtsF (ps.map (·.1))) = true := by
     apply okFile_ones
     intro s hs
